@@ -11,6 +11,7 @@ CONTRACT_MODULES = [
     "contracts.pdu_other",
     "contracts.elements",
     "contracts.pdu_integrity",
+    "contracts.burst",
 ]
 
 TRUSTED_BASE = [
@@ -66,5 +67,10 @@ PROPS = {
         level_text="Proof: (1) every PDU with a check field built from symbolic fields parses back with its indicator true; (2) slot type and EMB indicators equal Golay / QR codeword membership on ALL 2^20 / 2^16 received words (except the recorded findings); (3) for data headers (5 formats), PI header, short LC and confirmed data blocks (3 rates), every single inverted bit and every non-zero SYMBOLIC burst no longer than the check field at a literal position (codeword order) leads to a decode error, a false indicator, or unchanged field values - symbolic fields, exhaustive paths, XOR-aware solver.",
         level_note="Quick tier: every single-bit position and burst windows every 8 positions plus the check-field boundary; thorough: every window start. Seven witness classes are recorded as known findings (in-band zero sentinels pinned by the repository's tests; indicators computed over re-serialised instead of received bits) as separate obligations, so the main obligations stay sharp. HRNP checksum: see C12 contracts (shared). CSBK has no indicator (not in the property's list).",
         explanation="contracts SlotType/EmbeddedSignalling.from_bits.all_words, *.detects_corruption, parsed_back_*_ok clauses of the build_parse contracts",
+    ),
+    "C01": dict(
+        level_text="Proof per (payload kind, data sync pattern) with symbolic colour code and symbolic payload fields: the library's own assembly idiom -> 33 octets -> Burst.from_bytes gives the same data type, colour code, sync pattern, payload bits and every payload attribute (typed view for rate blocks), identical re-serialisation, slot parity ok; all 2^216 vocoder payloads around each voice sync pattern, and around valid EMB (any cc / PI / LCSS) with any 32 embedded bits, survive parse-then-serialise bit for bit.",
+        level_note="Quick tier: every payload kind with one of the four data sync patterns (rotating) plus all four for two kinds; thorough: all kind x sync combinations. Rate 3/4 goes through the C10 loop contract of the trellis decoder (stub with call-site obligation); CRC bit-serial tail through C05. Feature set id of CSBK / LC payloads is a literal (0) here - its totality is C03's.",
+        explanation="contracts Burst.assemble_parse / voice_sync / voice_emb",
     ),
 }
